@@ -58,6 +58,21 @@ def hours_day(ordinal):
             'counters': {'hour_grid_updates': n, 'hour_grid_open_instants': nopen}}
 
 
+def big_batch(k):
+    """k cycles of (buy A, sell A, buy B, sell B) for each of two portfolios queued while closed, then one open update"""
+    hist = list(INIT) + [('tick', 1)]
+    for i in range(k):
+        for p in ('1', '2'):
+            hist += [('submit', p, 'A', 2), ('submit', p, 'A', -3), ('submit', p, 'B', 2), ('submit', p, 'B', -3)]
+    hist += [('tick', 2), ('tick', 3)]
+    viols = []
+    for cut in (len(hist) - 1, len(hist)):
+        m, fails = bm.build(FEE, tuple(hist[:cut]), check_last=True)
+        viols += [dict(f, case={'harness': 'big_batch', 'k': k}) for f in fails if f['clause'].startswith('C04.')]
+    return {'viols': viols[:4], 'execs': 2, 'evals': 2, 'nontrivial': True, 'outcome': ('batch', k),
+            'counters': {'orders_in_largest_batch': 8 * k}}
+
+
 def run(tier, res, is_known):
     depth = 5 if tier == 'quick' else 7
     res.rule = ('BFS over interleavings of submissions (2 portfolios x 2 assets x buy/sell) with clock updates '
@@ -78,6 +93,12 @@ def run(tier, res, is_known):
     years = [2020] if tier == 'quick' else [2019, 2020, 2021, 2024]
     days = [d for y in years for d in range(datetime.date(y, 1, 1).toordinal(), datetime.date(y, 12, 31).toordinal() + 1)]
     product(hours_day, days, res, is_known, label='exchange hours x every day of %s' % years, chunk=16)
+    if any(not is_known(v) for v in res.violations):
+        return
+    product(periodic, bm.periodic_items([FEE], repeats=(40, 150) if tier == 'quick' else (40, 150, 400)), res, is_known,
+            label='long periodic histories', chunk=4)
+    # many orders in ONE batch: k buys and k sells of both assets queued before a single update
+    product(big_batch, [4, 9, 30, 100], res, is_known, label='large single batches', chunk=1)
     res.rule += ('; part 2: every day of %s x 13 boundary times: two pending orders and one clock update on a fresh real '
                  'broker - filled iff Mon-Fri 14:30 <= t < 21:00 UTC' % years)
 
@@ -85,10 +106,18 @@ def run(tier, res, is_known):
 def replay(case):
     if case.get('harness') == 'hours':
         return hours_day(case['day'])['viols']
+    if case.get('harness') == 'periodic':
+        return bm.replay_periodic(case, 'C04.')
+    if case.get('harness') == 'big_batch':
+        return big_batch(case['k'])['viols']
     return bm.replay_broker(case, 'C04.')
 
 
 def minimise(case, clause):
-    if case.get('harness') == 'hours':
+    if case.get('harness') in ('hours', 'periodic', 'big_batch'):
         return case
     return bm.minimise_broker(case, clause, 'C04.')
+
+
+def periodic(item):
+    return bm.periodic_point(item, 'C04.', df_check=False)
